@@ -2,9 +2,9 @@
 Model of `source/priority_queue.c` (binary heap on an `aws_array_list`, optional back-pointer
 array, `aws_priority_queue_node` handles).
 
-* `items`   — `queue->container` (elements are `(key, uid)`; the comparator looks at `key` only:
-              `pred a b > 0` is `a.key > b.key`, i.e. keys are `Nat` with `≤` — a total preorder on
-              elements).
+* `items`   — `queue->container` (elements are `(key, uid)`; the comparator looks at `key` only and is
+              a parameter `c : Cmp` of every operation that sifts: `c.gt a b` is `pred(a, b) > 0`.
+              The theorems assume `CmpOK c`: `¬ pred(a, b) > 0` is a total preorder on keys).
 * `bp`      — `queue->backpointers`: `none` while the struct is zeroed (no handle seen yet),
               `some B` afterwards; `B[i] = some h` is a pointer to handle `h`, `none` is `NULL`.
 * `handles` — `node->current_index` of every handle; `none` stands for `SIZE_MAX` ("not in queue").
@@ -40,6 +40,21 @@ def parentOf (i : Nat) : Nat :=
 def leftOf (i : Nat) : Nat := ((i <<< 1) % 2^64 + 1) % 2^64
 /-- `#define RIGHT_OF(index) (((index) << 1) + 2)` -/
 def rightOf (i : Nat) : Nat := ((i <<< 1) % 2^64 + 2) % 2^64
+
+/-- the comparator `queue->pred` as the queue uses it: `gt a b` is the test `pred(a, b) > 0` on keys -/
+structure Cmp where
+  gt : Nat → Nat → Bool
+
+/-- `¬ (pred(a, b) > 0)`: the order the heap maintains (`a` may stay above `b`) -/
+def Cmp.le (c : Cmp) (a b : Nat) : Prop := c.gt a b = false
+
+/-- comparator hypothesis: `Cmp.le` is a total preorder -/
+structure CmpOK (c : Cmp) : Prop where
+  total : ∀ a b, c.le a b ∨ c.le b a
+  trans : ∀ a b d, c.le a b → c.le b d → c.le a d
+
+/-- min-heap on `Nat` keys: `pred(a, b) = (a > b) - (a < b)` -/
+def natCmp : Cmp := ⟨fun a b => decide (a > b)⟩
 
 structure PQ where
   items   : Array Elem
@@ -78,38 +93,38 @@ def sSwap (q : PQ) (a b : Nat) : PQ :=
 
 /-- body of the `s_sift_down` loop up to the choice of `first`: the root, or its left child if
 `pred(root, left) > 0`, then the right child if it exists and `pred(first, right) > 0`. -/
-def pickFirst (q : PQ) (root : Nat) : Nat :=
-  let first := if keyAt q root > keyAt q (leftOf root) then leftOf root else root
+def pickFirst (c : Cmp) (q : PQ) (root : Nat) : Nat :=
+  let first := if c.gt (keyAt q root) (keyAt q (leftOf root)) then leftOf root else root
   if rightOf root < q.items.size then
-    (if keyAt q first > keyAt q (rightOf root) then rightOf root else first)
+    (if c.gt (keyAt q first) (keyAt q (rightOf root)) then rightOf root else first)
   else first
 
 /-- `s_sift_down` (the loop runs at most `fuel` times; `items.size - root` always suffices, see
 `Proofs.C06.siftDown_heap`). -/
-def siftDown : Nat → PQ → Nat → PQ
+def siftDown (c : Cmp) : Nat → PQ → Nat → PQ
   | 0, q, _ => q
   | fuel + 1, q, root =>
     if leftOf root < q.items.size then
-      if pickFirst q root ≠ root then siftDown fuel (sSwap q (pickFirst q root) root) (pickFirst q root) else q
+      if pickFirst c q root ≠ root then siftDown c fuel (sSwap q (pickFirst c q root) root) (pickFirst c q root) else q
     else q
 
 /-- `s_sift_up`; returns `did_move`. -/
-def siftUp : Nat → PQ → Nat → PQ × Bool
+def siftUp (c : Cmp) : Nat → PQ → Nat → PQ × Bool
   | 0, q, _ => (q, false)
   | fuel + 1, q, index =>
     if index ≠ 0 then
       let parent := parentOf index
-      if keyAt q parent > keyAt q index then
-        ((siftUp fuel (sSwap q index parent) parent).1, true)
+      if c.gt (keyAt q parent) (keyAt q index) then
+        ((siftUp c fuel (sSwap q index parent) parent).1, true)
       else (q, false)
     else (q, false)
 
 /-- `s_sift_either`: `if (!index || !s_sift_up(queue, index)) s_sift_down(queue, index);` -/
-def siftEither (q : PQ) (index : Nat) : PQ :=
-  if index = 0 then siftDown q.items.size q index
+def siftEither (c : Cmp) (q : PQ) (index : Nat) : PQ :=
+  if index = 0 then siftDown c q.items.size q index
   else
-    let (q', moved) := siftUp (index + 1) q index
-    if !moved then siftDown q'.items.size q' index else q'
+    let (q', moved) := siftUp c (index + 1) q index
+    if !moved then siftDown c q'.items.size q' index else q'
 
 /-- `aws_array_list_set_at` on the back-pointer list: write at `index`, extend the length to
 `index + 1` when beyond it (the bytes in between are zero: memset at creation, pop_back zeroes). -/
@@ -138,14 +153,14 @@ def pushCore (q : PQ) (e : Elem) (h : Option Nat) : PQ :=
   { q with items := items, bp := bp, handles := handles }
 
 /-- `aws_priority_queue_push_ref` (`aws_priority_queue_push` passes `h = none`). -/
-def pushRef (q : PQ) (e : Elem) (h : Option Nat) : PQ × Option Err :=
+def pushRef (c : Cmp) (q : PQ) (e : Elem) (h : Option Nat) : PQ × Option Err :=
   -- aws_array_list_push_back(&queue->container, item)
   if isFull q then (q, some .exceedsMax)
   -- if (backpointer && !queue->backpointers.alloc) { if (!queue->container.alloc) { raise UNSUPPORTED; pop_back } }
   else if h.isSome ∧ q.bp.isNone ∧ q.cap.isSome then (q, some .unsupported)
   else
     let q1 := pushCore q e h
-    ((siftUp q1.items.size q1 (q1.items.size - 1)).1, none)
+    ((siftUp c q1.items.size q1 (q1.items.size - 1)).1, none)
 
 /-- `s_remove_node` after the swap: `pop_back` the container; if the back-pointer list exists set the
 `current_index` of the node at `swap_with` to `SIZE_MAX` and `pop_back` that list too. -/
@@ -159,28 +174,28 @@ def dropLast (q : PQ) (swapWith : Nat) : PQ :=
     { q with items := q.items.pop, bp := some B.pop, handles := hs }
 
 /-- `s_remove_node` -/
-def removeNode (q : PQ) (idx : Nat) : PQ × Except Err Elem :=
+def removeNode (c : Cmp) (q : PQ) (idx : Nat) : PQ × Except Err Elem :=
   match q.items[idx]? with
   | none => (q, .error .invalidIndex)
   | some item =>
     let swapWith := q.items.size - 1
     let q1 := if idx ≠ swapWith then sSwap q idx swapWith else q
     let q3 := dropLast q1 swapWith
-    let q4 := if idx ≠ swapWith then siftEither q3 idx else q3
+    let q4 := if idx ≠ swapWith then siftEither c q3 idx else q3
     (q4, .ok item)
 
 /-- `aws_priority_queue_remove`: the two `AWS_ERROR_PRECONDITION`s as written
 (`node->current_index < length`, `queue->backpointers.data`). -/
-def remove (q : PQ) (h : Nat) : PQ × Except Err Elem :=
+def remove (c : Cmp) (q : PQ) (h : Nat) : PQ × Except Err Elem :=
   match q.handles h with
   | none => (q, .error .badNode)        -- SIZE_MAX < length is false
   | some i =>
     if i < q.items.size then
-      if q.bp.isSome then removeNode q i else (q, .error .badNode)
+      if q.bp.isSome then removeNode c q i else (q, .error .badNode)
     else (q, .error .badNode)
 
-def pop (q : PQ) : PQ × Except Err Elem :=
-  if q.items.size ≠ 0 then removeNode q 0 else (q, .error .empty)
+def pop (c : Cmp) (q : PQ) : PQ × Except Err Elem :=
+  if q.items.size ≠ 0 then removeNode c q 0 else (q, .error .empty)
 
 def top (q : PQ) : Except Err Elem :=
   if q.items.size ≠ 0 then
@@ -205,7 +220,7 @@ def clear (q : PQ) : PQ :=
 /-! ### Predicates the theorems are stated with -/
 
 /-- heap order: no element is smaller than its parent (`PARENT_OF i = (i-1)/2`, see `Proofs.C06.parentOf_eq`) -/
-def HeapOrd (a : Array Elem) : Prop := ∀ i, 0 < i → i < a.size → kAt a ((i - 1) / 2) ≤ kAt a i
+def HeapOrd (c : Cmp) (a : Array Elem) : Prop := ∀ i, 0 < i → i < a.size → c.le (kAt a ((i - 1) / 2)) (kAt a i)
 
 /-- back-pointer array and handles are inverse to each other: without the array no handle is in the
 queue; with it, it is as long as the container and `B[i]` points to `h` iff `h.current_index = i`. -/
@@ -243,16 +258,16 @@ structure G where
 
 def G.init (q : PQ) : G := { q := q, next := 0, ref := [], owner := fun _ => none }
 
-def gstep (g : G) : Op → G × Res
+def gstep (c : Cmp) (g : G) : Op → G × Res
   | .push k h =>
     let e : Elem := ⟨k, g.next⟩
-    match pushRef g.q e h with
+    match pushRef c g.q e h with
     | (q', none) =>
       ({ q := q', next := g.next + 1, ref := e :: g.ref,
          owner := match h with | some h => upd g.owner h (some e) | none => g.owner }, .ok)
     | (q', some er) => ({ g with q := q', next := g.next + 1 }, .err er)
   | .pop =>
-    match pop g.q with
+    match pop c g.q with
     | (q', .ok e) => ({ g with q := q', ref := g.ref.erase e }, .elem e)
     | (q', .error er) => ({ g with q := q' }, .err er)
   | .top =>
@@ -260,7 +275,7 @@ def gstep (g : G) : Op → G × Res
     | .ok e => (g, .elem e)
     | .error er => (g, .err er)
   | .remove h =>
-    match remove g.q h with
+    match remove c g.q h with
     | (q', .ok e) => ({ g with q := q', ref := g.ref.erase e }, .elem e)
     | (q', .error er) => ({ g with q := q' }, .err er)
   | .clear => ({ g with q := clear g.q, ref := [] }, .ok)
@@ -274,18 +289,18 @@ def legalOp (g : G) : Op → Bool
   | .push _ (some h) => (g.q.handles h).isNone
   | _ => true
 
-def run (g : G) : List Op → G
+def run (c : Cmp) (g : G) : List Op → G
   | [] => g
-  | op :: ops => run (gstep g op).1 ops
+  | op :: ops => run c (gstep c g op).1 ops
 
-def legal (g : G) : List Op → Bool
+def legal (c : Cmp) (g : G) : List Op → Bool
   | [] => true
-  | op :: ops => legalOp g op && legal (gstep g op).1 ops
+  | op :: ops => legalOp g op && legal c (gstep c g op).1 ops
 
 /-- states reachable from a freshly initialised (dynamic or static) queue by a legal op sequence;
 the length bound keeps every index below 2^63, where `LEFT_OF`/`RIGHT_OF` do not wrap -/
-def Reach (g : G) : Prop :=
+def Reach (c : Cmp) (g : G) : Prop :=
   ∃ (q0 : PQ) (ops : List Op), (q0 = initDynamic ∨ ∃ c, q0 = initStatic c) ∧ ops.length + 2 < 2^63 ∧
-    legal (G.init q0) ops = true ∧ g = run (G.init q0) ops
+    legal c (G.init q0) ops = true ∧ g = run c (G.init q0) ops
 
 end AwsVerif.Heap
